@@ -216,8 +216,24 @@ func genScript(r *rng.R, tier string) corr.Case {
 			}
 		case x < wa+wr:
 			t := holders[r.Intn(len(holders))]
-			lines = append(lines, "rel "+strconv.Itoa(t))
-			s.release(t)
+			if len(waiting) > 0 && r.Intn(5) == 0 {
+				// the context of a waiting caller (mostly one of the same key) ends during this release
+				u := waiting[r.Intn(len(waiting))]
+				for try := 0; try < 4 && s.calls[u].key != s.calls[t].key; try++ {
+					u = waiting[r.Intn(len(waiting))]
+				}
+				lines = append(lines, fmt.Sprintf("relx %d %d", t, u))
+				s.release(t)
+				s.cancel(u)
+			} else if r.Intn(40) == 0 {
+				u := s.ids[r.Intn(len(s.ids))]
+				lines = append(lines, fmt.Sprintf("relx %d %d", t, u))
+				s.release(t)
+				s.cancel(u)
+			} else {
+				lines = append(lines, "rel "+strconv.Itoa(t))
+				s.release(t)
+			}
 		default:
 			var t int
 			if len(waiting) > 0 && r.Intn(8) != 0 {
@@ -264,7 +280,7 @@ func genMalformed(r *rng.R) corr.Case {
 		"acqR 1 x5", "acqR 1 i05", "acqR 1 i+5", "acqR 1 i", "acqW 1234567890 i1", "acqR 1 i9223372036854775808",
 		"acqR -1 i5", "new single 0 0", "new triple 2 0", "new single 2", "new single 02 0", "new single 2 12345",
 		"new single 1234567 0", "state", "state k", "inside", "inside 5", "who now", "entries 1", "ACQR 1 i5", "acqRx 3",
-		"acqZ 1 i5", "rel 1 2", "state i05", "inside i--1", "new wide 2 -1"}
+		"acqZ 1 i5", "rel 1 2", "relx 1", "relx 1 x", "relx 99 1", "state i05", "inside i--1", "new wide 2 -1"}
 	n := r.Range(6, 16)
 	next := 1
 	var held []int
@@ -399,6 +415,9 @@ func fixedCases() []corr.Case {
 		mk("cancel-middle", "new single 3 0", "acqW 1 i0", "acqR 2 i0", "acqW 3 i0", "acqR 4 i0", "cancel 3", "who", "rel 1", "who", "state i0"),
 		mk("cancel-last-waiter", "new single 2 0", "acqW 1 i0", "acqR 2 i0", "cancel 2", "state i0", "rel 1", "state i0", "entries"),
 		mk("cancel-holder", "new single 2 0", "acqW 1 i0", "cancel 1", "who", "rel 1", "cancel 1", "entries"),
+		// the context of a queued caller ends while the release that admits it is in its critical section: the grant wins
+		mk("cancel-vs-grant", "new single 2 0", "acqW 1 i0", "acqR 2 i0", "acqR 3 i0", "acqW 4 i0", "relx 1 2", "who", "inside i0", "relx 2 4", "who", "rel 3", "who", "state i0"),
+		mk("cancel-vs-grant-wide", "new xhash 3 2", "acqW 1 s", "acqW 2 s", "acqR 3 s", "acqR 4 i1", "relx 1 2", "who", "relx 2 4", "who", "relx 4 4", "relx 3 1", "entries"),
 		mk("precancelled", "new single 2 0", "acqRx 1 i0", "acqWx 2 i0", "who", "state i0", "rel 1", "acqWx 3 i0", "who", "entries"),
 		mk("keys-independent", "new xhash 2 73", "acqW 1 i5", "acqW 2 s5", "acqR 3 i5", "acqR 4 s5", "who", "entries", "rel 1", "rel 2", "who", "entries", "rel 3", "rel 4", "entries"),
 		mk("wide-one-shard", "new wide 3 1", "acqR 1 i-3", "acqW 2 i-3", "acqR 3 i4", "rel 1", "who", "rel 2", "rel 3", "entries"),
@@ -460,7 +479,7 @@ func spec() corr.Spec {
 			}
 			return "C01:corr:" + op
 		},
-		Rule: "scripts of acqR/acqW/acqRx/acqWx/rel/cancel events (quiescence after each) over <= 6 (thorough <= 17) simultaneous callers, 1-3 keys (int and string, incl. MinInt64/MaxInt64/empty string), rwRatio in {1,2,3,4,10}, single/wide/xhash maps with prime in {1,2,3,73,default 211}; 5 generator classes (rw-mix, reader-heavy, writer-heavy, cancel-heavy, drain) + 1/12 malformed; thorough adds every maximal script <= 7 events over 3 callers x 2 keys (rw 2), <= 6 events (rw 1), <= 7 events over 4 callers (rw 3). A case is non-trivial when some caller had to wait or a release/cancel admitted a waiter; distinct = distinct script text",
+		Rule: "scripts of acqR/acqW/acqRx/acqWx/rel/relx/cancel events (quiescence after each) over <= 6 (thorough <= 17) simultaneous callers, 1-3 keys (int and string, incl. MinInt64/MaxInt64/empty string), rwRatio in {1,2,3,4,10}, single/wide/xhash maps with prime in {1,2,3,73,default 211}; 5 generator classes (rw-mix, reader-heavy, writer-heavy, cancel-heavy, drain) + 1/12 malformed; thorough adds every maximal script <= 7 events over 3 callers x 2 keys (rw 2), <= 6 events (rw 1), <= 7 events over 4 callers (rw 3). A case is non-trivial when some caller had to wait or a release/cancel admitted a waiter; distinct = distinct script text",
 		Assumptions: []string{
 			"sync.Mutex makes each of the three critical sections (acquire up to Unlock, release, cancel fix-up) atomic; channels/select/context behave as documented",
 			"callers release what they acquired, with the same key and the matching Release* (read/write)",
